@@ -1,6 +1,7 @@
 import PolyVerif.Lemmas.RotationSpec
 import PolyVerif.Model.Seqhash
 import PolyVerif.Props.C11
+import PolyVerif.Base.Blake3
 /-
 Helper lemmas for C04 / C05: the hash model `hashWith` / `hashSpec` in closed form
 (`norm`, `Accepted`, `canonSpec`, `v1`), character facts (`Char.toUpper` on ASCII decided over
@@ -74,13 +75,6 @@ theorem mem_letters_of_toUpper {c : Char} (h : c.toUpper ∈ upperCodes) : c ∈
 
 /-! ### normalisation (upper-casing, `U → T` under RNA) -/
 
-/-- what `Hash` does to one letter before anything else -/
-def normC (ty : String) (c : Char) : Char :=
-  if ty = "RNA" then (if c.toUpper = 'U' then 'T' else c.toUpper) else c.toUpper
-
-/-- what `Hash` does to the sequence before anything else -/
-def norm (ty : String) (s : Str) : Str := if ty = "RNA" then uToT (upper s) else upper s
-
 theorem norm_eq_map (ty : String) (s : Str) : norm ty s = s.map (normC ty) := by
   unfold norm normC
   split <;> simp [uToT, upper, List.map_map, Function.comp_def]
@@ -129,16 +123,54 @@ theorem all_contains_iff (l t : Str) : (t.all fun c => l.contains c) = true ↔ 
 
 theorem str_ne : "DNA" ≠ "RNA" ∧ "DNA" ≠ "PROTEIN" ∧ "RNA" ≠ "PROTEIN" := by decide
 
+theorem table_alphabet_ascii0 : ∀ c ∈ nucleotideLetters ++ proteinLetters, c.toNat < 128 := by decide
+
+/-- the first statement of `Hash` (reject any rune above `unicode.MaxASCII`) rejects nothing that the
+alphabet test would not reject anyway IN THE MODEL (whose `upper` moves ASCII letters only): accepted
+input is ASCII.  (In Go the test matters: `strings.ToUpper` folds U+017F to S and U+0131 to I.) -/
+theorem Accepted.input_ascii {ty : String} {ds : Bool} {s : Str} (h : Accepted ty ds (norm ty s)) :
+    ∀ c ∈ s, c.toNat < 128 := by
+  intro c hc
+  have hm : normC ty c ∈ nucleotideLetters ++ proteinLetters := by
+    have hn : normC ty c ∈ norm ty s := by rw [norm_eq_map]; exact List.mem_map_of_mem hc
+    rcases h with ⟨_, hl⟩ | ⟨_, hl, _⟩
+    · exact List.mem_append_left _ (hl _ hn)
+    · exact List.mem_append_right _ (hl _ hn)
+  have ha := table_alphabet_ascii0 _ hm
+  rcases ascii_or_fixed c with h' | ⟨hf, _⟩
+  · exact h'
+  · unfold normC at ha
+    rw [hf] at ha
+    by_cases hu : c = 'U'
+    · subst hu; decide
+    · simp only [hu, ↓reduceIte, ite_self] at ha
+      exact ha
+
+theorem any_nonascii_false {s : Str} (h : ∀ c ∈ s, c.toNat < 128) : s.any (fun c => decide (c.toNat > 127)) = false := by
+  rw [List.any_eq_false]
+  intro c hc
+  have := h c hc
+  simp only [decide_eq_true_eq]; omega
+
+theorem any_nonascii_true {s : Str} (h : ¬ ∀ c ∈ s, c.toNat < 128) : s.any (fun c => decide (c.toNat > 127)) = true := by
+  rw [List.any_eq_true]
+  simp only [not_forall] at h
+  obtain ⟨c, hc, hn⟩ := h
+  exact ⟨c, hc, by simp only [decide_eq_true_eq]; omega⟩
+
 /-- rejection happens before the rotation is looked at: it holds for EVERY rotation function -/
 theorem hashWith_err (rot : Str → Option Str) (blake : List UInt8 → List UInt8) (s : Str) (ty : String)
     (circ ds : Bool) (h : ¬ Accepted ty ds (norm ty s)) : hashWith rot blake s ty circ ds = .err := by
   obtain ⟨h1, h2, h3⟩ := str_ne
   unfold Accepted at h
   unfold hashWith
-  change (if ty ≠ "DNA" ∧ ty ≠ "RNA" ∧ ty ≠ "PROTEIN" then Outcome.err else
+  change (if s.any (fun c => decide (c.toNat > 127)) = true then Outcome.err else
+    if ty ≠ "DNA" ∧ ty ≠ "RNA" ∧ ty ≠ "PROTEIN" then Outcome.err else
     if (ty = "DNA" ∨ ty = "RNA") ∧ ¬ ((norm ty s).all fun c => nucleotideLetters.contains c) = true then Outcome.err else
     if ty = "PROTEIN" ∧ ¬ ((norm ty s).all fun c => proteinLetters.contains c) = true then Outcome.err else
     if ty = "PROTEIN" ∧ ds = true then Outcome.err else _) = _
+  split
+  · rfl
   simp only [all_contains_iff]
   by_cases hd : ty = "DNA"
   · subst hd
@@ -165,17 +197,19 @@ theorem hashSpec_ok (blake : List UInt8 → List UInt8) (s : Str) (ty : String) 
     (h : Accepted ty ds (norm ty s)) :
     hashSpec blake s ty circ ds = .ok (v1 blake ty circ ds (canonSpec (norm ty s) circ ds)) := by
   obtain ⟨h1, h2, h3⟩ := str_ne
+  have hasc := any_nonascii_false h.input_ascii
   unfold Accepted at h
   unfold hashSpec hashWith
-  change (if ty ≠ "DNA" ∧ ty ≠ "RNA" ∧ ty ≠ "PROTEIN" then Outcome.err else
+  change (if s.any (fun c => decide (c.toNat > 127)) = true then Outcome.err else
+    if ty ≠ "DNA" ∧ ty ≠ "RNA" ∧ ty ≠ "PROTEIN" then Outcome.err else
     if (ty = "DNA" ∨ ty = "RNA") ∧ ¬ ((norm ty s).all fun c => nucleotideLetters.contains c) = true then Outcome.err else
     if ty = "PROTEIN" ∧ ¬ ((norm ty s).all fun c => proteinLetters.contains c) = true then Outcome.err else
     if ty = "PROTEIN" ∧ ds = true then Outcome.err else
     match canon (fun s => some (leastRotation s)) (norm ty s) circ ds with
     | none => Outcome.panic
     | some d => Outcome.ok (v1 blake ty circ ds d)) = _
-  rw [canon_spec]
-  simp only [all_contains_iff]
+  rw [canon_spec, hasc]
+  simp only [all_contains_iff, Bool.false_eq_true, ↓reduceIte]
   rcases h with ⟨hty, hl⟩ | ⟨hty, hl, hds⟩
   · rcases hty with rfl | rfl
     · simp [h2]; exact hl
@@ -317,6 +351,51 @@ theorem norm_revComp {ty : String} {s : Str} (h : Iupac15 (norm ty s)) :
   intro c hc
   exact normC_complementBase (h _ (List.mem_map_of_mem hc))
 
+/-! ### complementing is injective on the accepted nucleotide letters other than `U` -/
+
+/-- the accepted nucleotide letters other than `U` (`U` shares its complement `A` with `T`) -/
+def dsLetters : List Char := nucleotideLetters.filter (· ≠ 'U')
+
+/-- a left inverse of `complementBase` on `dsLetters` (found by search in the regenerated table) -/
+def decompl (c : Char) : Char := (dsLetters.find? fun a => complementBase a == c).getD c
+
+theorem table_decompl : ∀ a ∈ dsLetters, decompl (complementBase a) = a := by decide
+
+/-- …so on `U`-free nucleotide strings (`Z`, complemented to the zero rune, included) the reverse
+complement can be undone -/
+theorem revComp_cancel {t : Str} (hl : ∀ c ∈ t, c ∈ nucleotideLetters) (hu : 'U' ∉ t) :
+    (revComp t).reverse.map decompl = t := by
+  unfold Transform.revComp complement
+  rw [List.reverse_reverse, List.map_map]
+  conv => rhs; rw [← List.map_id t]
+  apply List.map_congr_left
+  intro c hc
+  apply table_decompl
+  unfold dsLetters
+  rw [List.mem_filter]
+  refine ⟨hl c hc, ?_⟩
+  have : c ≠ 'U' := fun e => hu (e ▸ hc)
+  simpa using this
+
+theorem ascii_toUpper_ascii : ∀ n : Fin 128, (Char.ofNat n.val).toUpper.toNat < 128 := by decide
+
+/-- upper-casing neither creates nor removes non-ASCII letters (in the model) -/
+theorem toUpper_nonascii_iff (c : Char) : c.toUpper.toNat > 127 ↔ c.toNat > 127 := by
+  rcases ascii_or_fixed c with h | ⟨h, _⟩
+  · have := forall_ascii (P := fun c => c.toUpper.toNat < 128) ascii_toUpper_ascii c h
+    omega
+  · rw [h]
+
+theorem any_nonascii_upper (s : Str) :
+    (upper s).any (fun c => decide (c.toNat > 127)) = s.any (fun c => decide (c.toNat > 127)) := by
+  unfold upper
+  rw [List.any_map]
+  congr 1
+  funext c
+  simp only [Function.comp]
+  rw [decide_eq_decide]
+  exact toUpper_nonascii_iff c
+
 /-! ### injectivity of the pieces of the v1 form -/
 
 theorem hexDigit_inj : ∀ i j : Fin 16, hexDigit i.val = hexDigit j.val → i = j := by decide
@@ -429,3 +508,34 @@ theorem v1_take (blake : List UInt8 → List UInt8) (ty : String) (c d : Bool) (
   simp [v1, v1_prefix, tag]
 
 end PolyVerif.Seqhash
+
+/-! ### the Lean BLAKE3 used by the correspondence check returns 32 bytes -/
+namespace PolyVerif.Blake3
+
+theorem compress_size (cv b : Array UInt32) (c : UInt64) (bl f : UInt32) : (compress cv b c bl f).size = 8 := by
+  simp [compress]
+theorem chunkCV_go_size (index : UInt64) (rootFlag : UInt32) (nb : Nat) :
+    ∀ (l : List (List UInt8)) (i : Nat) (cv : Array UInt32), cv.size = 8 → (chunkCV.go index rootFlag nb i cv l).size = 8
+  | [], _, _, h => by simpa [chunkCV.go] using h
+  | b :: rest, i, cv, _ => by
+    simp only [chunkCV.go]
+    exact chunkCV_go_size index rootFlag nb rest _ _ (compress_size _ _ _ _ _)
+theorem chunkCV_size (bs : List UInt8) (i : UInt64) (r : UInt32) : (chunkCV bs i r).size = 8 := by
+  unfold chunkCV
+  exact chunkCV_go_size _ _ _ _ _ _ (by decide)
+theorem subtreeCV_size : ∀ (fuel : Nat) (chunks : List (List UInt8)) (first : Nat) (r : UInt32), (subtreeCV fuel chunks first r).size = 8
+  | 0, _, _, _ => by simp [subtreeCV]; decide
+  | fuel + 1, [], _, _ => by simp [subtreeCV, chunkCV_size]
+  | fuel + 1, [c], _, _ => by simp [subtreeCV, chunkCV_size]
+  | fuel + 1, a :: b :: cs, _, _ => by simp [subtreeCV, parentCV, compress_size]
+theorem sum256_length (bs : List UInt8) : (sum256 bs).length = 32 := by
+  unfold sum256
+  simp only [List.length_flatMap, List.length_cons, List.length_nil]
+  have := subtreeCV_size ((splitEvery 1024 bs).length + 1) (splitEvery 1024 bs) 0 ROOT
+  generalize subtreeCV ((splitEvery 1024 bs).length + 1) (splitEvery 1024 bs) 0 ROOT = cv at *
+  have h2 : cv.toList.length = 8 := by simpa using this
+  generalize cv.toList = l at *
+  match l, h2 with
+  | [a,b,c,d,e,f,g,h], _ => simp
+
+end PolyVerif.Blake3
